@@ -145,8 +145,18 @@ def check_case(case):
     gpts = list(itertools.product(*gvals))
     want_calls = sorted(
         xfn.enc(dict(zip(names + gnames, c + g))) for c in chosen for g in gpts)
+    sticky = case["api"] == "runner" and not sub
+    if sticky:
+        # the function has one more argument with a default; an earlier run
+        # swept it as a sub-grid, the judged run does not mention it
+        f = xfn.make_fn(names + ["z"], kind=kind, name="f02",
+                        defaults={"z": 7})
+        want_calls = sorted(xfn.enc(dict(zip(names, c), z=7)) for c in chosen)
     kw = dict(verbosity=0, shuffle=case["shuffle"], split=case["split"])
     combos = dict(sub) if sub else None
+    if combos and case.get("oneshot") and case["api"] in ("combo", "case"):
+        # (the sub-grid's values as one-shot iterators as well)
+        combos = {a: iter(v) for a, v in combos.items()}
     with xfn.CallLog() as log:
         try:
             if case["api"] == "combo":
@@ -164,6 +174,8 @@ def check_case(case):
                 ax_names = list(dcases[0].keys())
             elif case["api"] == "runner":
                 r = xyz.Runner(f, fn_args=names + gnames, var_names="out")
+                if sticky:
+                    r = xyz.Runner(f, fn_args=names, var_names="out")
                 with xfn.CallLog():
                     # an earlier run on the same object: argument names
                     # given for that run only, in another order
@@ -175,10 +187,15 @@ def check_case(case):
                     if case["keyrot"]:
                         r.run_cases([dict(zip(names, chosen[-1]))],
                                     combos=tuple(sub), verbosity=0)
+                    if sticky:
+                        r.run_cases([dict(zip(names, chosen[-1]))],
+                                    combos={"z": [7, 5]}, verbosity=0,
+                                    shuffle=2)
                 ds = r.run_cases([tuple(c) for c in chosen],
                                  fn_args=names if case["keyrot"] == 2
-                                 else None, combos=tuple(sub),
-                                 verbosity=0, shuffle=case["shuffle"])
+                                 else None, verbosity=0,
+                                 shuffle=case["shuffle"],
+                                 **({"combos": tuple(sub)} if sub else {}))
                 got = []
                 for c in chosen:
                     for g in gpts:
@@ -222,6 +239,8 @@ def check_case(case):
                        or "%d calls" % len(calls), want_calls[:3])))
 
     def val(c, g):
+        if sticky:
+            return xfn.expected(kind, dict(zip(names, c), z=7))
         return xfn.expected(kind, dict(zip(names + gnames, c + g)))
 
     ncomp = 2 if case["split"] else None
